@@ -92,7 +92,7 @@ func init() {
 		Technique: "runtime monitor: metamorphic equality of complete outcomes between a command line and its documented rewriting (two real executions in the same mode), long-form side anchored on the intended-outcome fold; mode-independence of `--` tokens across three real executions",
 		Rule: "case = random program + argv containing single-dash tokens of the mode's shape (Normal -name[=v]; Bundling -xyz[=v] with flag letters and a final option of any kind, detached values; SingleDash -xREST with arbitrary REST incl. leading '=' and multibyte letters; undeclared head letters) and its rewriting; " +
 			"plus the long-only rendering executed in all 3 modes; distinct = (mode, item shapes); non-trivial = at least one single-dash option token is present" + genDims,
-		Cases: func(tier string) int { return tierN(tier, 20000, 2000000) },
+		Cases: func(tier string) int { return tierN(tier, 50000, 2000000) },
 		Run: func(seed uint64, idx int, tier string) *fw.Result {
 			r := CaseRng(seed, "C07", idx)
 			pc := DefaultCfg()
